@@ -42,6 +42,7 @@ META = {
 }
 
 PUBS = ['p1', 'p2', 'p3']
+LIFE = {'restart_p': 0.02}     # server restarts cost 2-4 s each
 MUTS = ['after_write', 'newest', 'batch', 'none_paused', 'neg_waives', 'nack_leader_only']
 
 
@@ -143,6 +144,11 @@ def sim_to_round(beh, rng, rid):
             if cur:
                 waves.append(cur)
             cur = {p: [{'a': 'Read'}] for p in PUBS}
+        elif a['a'] == 'Restart':
+            # server restart between two waves (driver step '#')
+            if cur:
+                waves.append(cur)
+            cur = {'#': [{'a': 'Restart'}]}
         elif a['a'] == 'Pause':
             # PauseStream needs quiescence: it starts a new wave (driver step '#')
             if cur:
@@ -184,7 +190,14 @@ def random_round(rng, rid):
     for w in waves:
         if rng.random() < 0.2:
             w['#'] = [{'a': 'Pause'}]
-    return decorate_round(rid, rng.random() < 0.92, waves, rng)
+    r = decorate_round(rid, rng.random() < 0.92, waves, rng)
+    # life cycle of the stream: a deleted predecessor with the opposite setting; a server restart before a wave
+    if rng.random() < 0.06:
+        r['cfg']['recreate'] = True
+    if rng.random() < LIFE['restart_p']:
+        w = rng.choice(r['steps'])
+        w['#'] = w.get('#', []) + [{'a': 'Restart'}]
+    return r
 
 
 def decorate_round(rid, occ, waves, rng, path=None):
@@ -224,6 +237,23 @@ def none_case(rid, path, kind, paused):
             'steps': [{'p1': [{'a': 'Send', 'kind': 'waive', 'pol': 'leader'}, {'a': 'Send', 'kind': 'waive', 'pol': 'leader'}]},
                       mid,
                       {'p1': [{'a': 'Send', 'kind': 'waive', 'pol': 'leader'}]}]}
+
+
+def life_case(rid, path, recreate, restart_at):
+    """stream life cycle: [deleted predecessor with the opposite setting,] conditional publishes, server restart
+    (Raft log replay / snapshot, commit logs reopened), conditional publishes again (stale, equal, racing)"""
+    w1 = {'p1': [{'a': 'Send', 'kind': 'equal', 'pol': 'leader'}, {'a': 'Send', 'kind': 'stale', 'pol': 'leader'}],
+          'p2': [{'a': 'Send', 'kind': 'equal', 'pol': 'all'}]}
+    w2 = {'p1': [{'a': 'Read'}, {'a': 'Send', 'kind': 'stale', 'pol': 'leader'}, {'a': 'Send', 'kind': 'equal', 'pol': 'leader'}],
+          'p2': [{'a': 'Read'}, {'a': 'Send', 'kind': 'equal', 'pol': 'leader'}, {'a': 'Send', 'kind': 'neg', 'pol': 'all'}]}
+    w3 = {'p1': [{'a': 'Read'}, {'a': 'Send', 'kind': 'equal', 'pol': 'leader'}],
+          'p2': [{'a': 'Read'}, {'a': 'Send', 'kind': 'equal', 'pol': 'leader'}, {'a': 'Send', 'kind': 'far', 'pol': 'leader'}]}
+    waves = [w1, w2, w3]
+    waves[restart_at]['#'] = [{'a': 'Restart'}]
+    cfg = {'occ': True, 'batch': 8, 'batchMs': 0, 'path': path, 'pubs': ['p1', 'p2']}
+    if recreate:
+        cfg['recreate'] = True
+    return {'id': rid, 'cfg': cfg, 'steps': waves}
 
 
 _panic_re = re.compile(r'^panic: (.*)$', re.M)
@@ -297,7 +327,7 @@ def sv_judge(rep, rounds, trace, confirm=True):
 def sv_stats(events):
     st = {'rounds': 0, 'msgs': 0, 'ok': 0, 'refused': 0, 'timeouts': 0, 'nontrivial_ids': [], 'exact_refusals': 0,
           'races_same_exp': 0, 'aborted': 0, 'other_answers': 0, 'pauses': 0, 'rounds_with_pause': 0,
-          'none_on_occ': 0, 'none_refused': 0, 'sync_rounds': 0, 'noanswer': 0, 'fences': 0,
+          'none_on_occ': 0, 'none_refused': 0, 'sync_rounds': 0, 'noanswer': 0, 'fences': 0, 'restarts': 0, 'recreated_streams': 0,
           'conditional_all': 0}
     for e in events:
         if e['a'] == 'Aborted':
@@ -306,6 +336,8 @@ def sv_stats(events):
             continue
         st['rounds'] += 1
         st['pauses'] += e.get('pauses', 0)
+        st['restarts'] += e.get('restarts', 0)
+        st['recreated_streams'] += 1 if e.get('recreate') else 0
         st['rounds_with_pause'] += 1 if e.get('pauses', 0) else 0
         st['sync_rounds'] += 1 if e['cfg']['path'] == 'sync' else 0
         st['none_on_occ'] += sum(1 for m in e['msgs'] if m['pol'] == 'none' and e['cfg']['occ'])
@@ -354,7 +386,7 @@ def run_server(rep, tier, seed, rng):
         rep.add_design(cfgname[:-4], res)
         core.log('design check %s: %d distinct states, %.0f s' % (cfgname, res['distinct'], res['wall']))
         # the two large configs have MaxPauses = 0 (PauseStream is exercised by MC_OccPublish_small.cfg)
-        skip = {'MCPause'} if cfgname in ('MC_OccPublish_thorough.cfg', 'MC_OccPublish_thorough2.cfg') else set()
+        skip = {'MCPause', 'MCRestart'} if cfgname in ('MC_OccPublish_thorough.cfg', 'MC_OccPublish_thorough2.cfg') else {'MCRestart'}
         zero = [z for z in res.get('zero_cov', []) if z not in skip]
         rep.cov['coverage_zero_actions'] = [z for z in rep.cov['coverage_zero_actions']
                                             if not (z.split(':')[0] == cfgname[:-4] and z.split(':')[1] in skip)]
@@ -385,6 +417,10 @@ def run_server(rep, tier, seed, rng):
         for paused in (False, True):
             for kind in ('equal', 'far', 'stale'):
                 rounds.append(none_case(len(rounds) + 1, path, kind, paused))
+    # stream life cycle x server restart
+    for path, recreate, at in (('async', True, 0), ('sync', True, 1), ('async', False, 1)) + (
+            (('sync', False, 0), ('async', True, 2), ('sync', True, 2)) if thorough else ()):
+        rounds.append(life_case(len(rounds) + 1, path, recreate, at))
     with core.scratch('c16sv') as d:
         trace, died = sv_execute(rounds, d)
         tr, events = sv_judge(rep, rounds, trace)
